@@ -334,3 +334,5 @@ def check(run, prog):
     run.ob("R-15.4", f"{main.key}::gitignore-exact-paths", bad_blank is None,
            f"the answer of git check-ignore is not matched to the files exactly (paths containing blanks): {bad_blank}", ex,
            evaluations=runs.n)
+    from .c15_argv import rule_argv_complete
+    rule_argv_complete(run, prog)            # R-15.6
